@@ -119,6 +119,23 @@ func ProfileByName(name string) *Profile {
 		p.Blocks = false
 		p.MemoPct = 0
 		p.Tmpls = tmplsWhere(func(t Tmpl) bool { return !t.BL }) // table vs general procedure is C15's business
+	case "c07": // left-recursion detection: reference graphs with nullable prefixes and predicates
+		p.MaxRules = 5
+		p.MaxDepth = 3
+		p.Blocks = false
+		p.W[KRef] = 60
+		p.W[KLit] = 14
+		p.W[KCls] = 3
+		p.W[KAny] = 2
+		p.W[KOpt] = 14
+		p.W[KStar] = 8
+		p.W[KAnd], p.W[KNot] = 4, 4
+		p.W[KSeq] = 30
+		p.W[KAlt] = 16
+		p.IgnoreCase = 0
+		p.NonAscii = false
+		p.Throw = true
+		p.W[KRec], p.W[KThrow] = 5, 6
 	case "c18": // concurrency: state-using grammars, many inputs per grammar
 		p.State = true
 		p.W[KStC] = 8
